@@ -29,7 +29,7 @@ def cases(draw):
     # choices are drawn first and the bulky tree last)
     d = draw(st.sampled_from([2, 2, 3, 3, 4]))
     kind = draw(st.sampled_from(["swizzle", "swizzle", "swap", "flatten", "flatten", "merge", "merge",
-                                 "flatten_unflatten", "split_flatten", "flatten_swap"]))
+                                 "flatten_unflatten", "split_flatten", "flatten_swap", "flatten_flatten"]))
     depth = draw(st.integers(0, d - 2))
     c = {"how": draw(st.sampled_from(["ref", "fiber", "uncompressed", "yaml", "deepcopy"])),
          "kind": kind, "depth": depth, "inverse": draw(st.booleans()),
@@ -37,7 +37,7 @@ def cases(draw):
          "levels": min(draw(st.sampled_from([1, 2, 3, 1, 2])), d - 1 - depth),
          "style": draw(st.sampled_from(["tuple", "pair", "linear"])),
          "mstyle": draw(st.sampled_from(["absolute", "relative"])),
-         "mfn": draw(st.sampled_from(["sum", "sum", "max", "first"])),
+         "mfn": draw(st.sampled_from(["sum", "sum", "max", "first", "count", "spread"])),
          "step": draw(st.integers(1, 5))}
     if kind == "split_flatten":
         c["depth"] = draw(st.integers(0, d - 1))
@@ -58,7 +58,9 @@ def cases(draw):
     return c
 
 
-MFN = {"sum": None, "max": lambda ps: max(ps), "first": lambda ps: ps[0]}
+# count / spread see ALL colliding payloads at once: folding them in pairwise gives another answer
+MFN = {"sum": None, "max": lambda ps: max(ps), "first": lambda ps: ps[0],
+       "count": lambda ps: len(ps), "spread": lambda ps: (max(ps) - min(ps)) * len(ps) + len(ps)}
 
 
 def flat_coord(cs, style, shapes):
@@ -100,6 +102,10 @@ def reduce_merge(groups, fn, default):
             v = sum(vs)
         elif fn == "max":
             v = max(vs)
+        elif fn == "count":
+            v = len(vs)
+        elif fn == "spread":
+            v = (max(vs) - min(vs)) * len(vs) + len(vs)
         else:
             v = vs[0]
         if v != default:
@@ -196,6 +202,8 @@ def check(case, rec):
         tdepth = depth
     elif kind == "merge":
         levels, style, fn = case["levels"], case["mstyle"], case["mfn"]
+        if fn in ("count", "spread"):
+            levels = 1          # (a multi-level merge is hierarchical: only one level hands over all colliders at once)
         r = t.mergeRanks(depth=depth, levels=levels, coord_style=style, merge_fn=MFN[fn])
         operand_intact("mergeRanks")
         verify(r, "mergeRanks result")
@@ -205,8 +213,43 @@ def check(case, rec):
         if got != want:
             raise Violation("merge", f"mergeRanks(depth={depth}, {style}, {fn}) of {cont} gives {got}, expected {want}")
         rec.cls("collision", any(len(v) > 1 for v in groups.values()))
+        rec.cls("collision-3way", any(len(v) > 2 for v in groups.values()))
+        rec.cls("merge-fn-" + fn)
         rec.cls("merge-" + style)
         tdepth = depth
+    elif kind == "flatten_flatten":
+        # flattening a rank that already has tuple coordinates (a tensor flattened before)
+        if d < 3:
+            return
+        fd = depth % (d - 2)
+        style = "pair" if case["style"] == "pair" else "tuple"
+        f1 = t.flattenRanks(depth=fd, levels=1, coord_style=style)
+        operand_intact("flattenRanks")
+        snap1 = observe.snap(f1.getRoot())
+        r = f1.flattenRanks(depth=fd, levels=1, coord_style=style)
+        if observe.snap(f1.getRoot()) != snap1:
+            raise Violation("operand-modified", "the second flattenRanks changed its (flattened) operand")
+        verify(r, "flattenRanks of a flattened tensor")
+        want = {}
+        for p, v in cont.items():
+            a, b, c = p[fd:fd + 3]
+            want[p[:fd] + (((a, b, c) if style == "tuple" else ((a, b), c)),) + p[fd + 3:]] = v
+        got = observe.tensor_content(r)
+        if got != want:
+            raise Violation("flatten-flattened", f"flatten(depth={fd}, {style}) twice of {cont} gives {got}, expected {want}")
+        if style == "tuple":
+            # the same tensor as one two-level flatten, so one two-level unflatten restores the original
+            back = r.unflattenRanks(depth=fd, levels=2)
+        else:
+            back = r.unflattenRanks(depth=fd, levels=1).unflattenRanks(depth=fd, levels=1)
+        verify(back, "unflatten of a twice flattened tensor")
+        gotb = observe.tensor_content(back) if default == 0 else observe.content_of(back.getRoot(), d, default)
+        # (how the ids of a rank flattened twice in pair style nest is not specified; the content decides there)
+        if gotb != cont or (style == "tuple" and back.getRankIds() != ids):
+            raise Violation("unflatten", f"flatten({style}) twice then unflatten of {cont} gives {gotb} / "
+                            f"{back.getRankIds()}")
+        rec.cls("style-" + style)
+        tdepth = fd
     elif kind == "flatten_swap":
         # swapping ranks of which one already has tuple coordinates (a flattened rank)
         if d < 3:
